@@ -208,6 +208,8 @@ where
         estimate: bool,
         write_set: &mut HashSet<LocationAndType>,
     ) {
+        #[cfg(feature = "verif-hooks")]
+        crate::verif::rt::pt4("mv_publish", self.version.txid, crate::verif::loc_hash(&location), self.version.incarnation, estimate as usize);
         write_set.insert(location.clone());
         self.mv_memory
             .entry(location)
@@ -223,6 +225,8 @@ where
         let mut result = None;
         let mut read_version = ReadVersion::Storage;
         let location = LocationAndType::Code(address);
+        #[cfg(feature = "verif-hooks")]
+        crate::verif::rt::pt2("mv_read", self.version.txid, crate::verif::loc_hash(&location));
         // 1. read from multi-version memory
         if let Some(written_transactions) = self.mv_memory.get(&location) &&
             let Some((&txid, entry)) =
@@ -256,6 +260,8 @@ where
         let mut result = None;
         if self.beneficiary.matches(address) {
             let location = LocationAndType::Basic(address);
+            #[cfg(feature = "verif-hooks")]
+            crate::verif::rt::pt2("hist_read", self.version.txid, crate::verif::loc_hash(&location));
             match self.beneficiary.resolve_before(self.version.txid) {
                 Ok(read) => {
                     let (account, version) = read.into_parts();
@@ -276,6 +282,8 @@ where
             let mut read_version = ReadVersion::Storage;
             let mut read_account = None;
             let location = LocationAndType::Basic(address);
+            #[cfg(feature = "verif-hooks")]
+            crate::verif::rt::pt2("mv_read", self.version.txid, crate::verif::loc_hash(&location));
             // 1. read from multi-version memory
             if let Some(written_transactions) = self.mv_memory.get(&location) &&
                 let Some((&txid, entry)) =
@@ -317,6 +325,8 @@ where
         let reset_location = LocationAndType::StorageReset(address);
         let mut reset_version = ReadVersion::Storage;
         let mut reset_txid = None;
+        #[cfg(feature = "verif-hooks")]
+        crate::verif::rt::pt2("mv_read", self.version.txid, crate::verif::loc_hash(&reset_location));
         if let Some(writes) = self.mv_memory.get(&reset_location) &&
             let Some((&txid, entry)) = writes.range(..self.version.txid).next_back() &&
             matches!(entry.data, MemoryValue::StorageReset)
@@ -332,6 +342,8 @@ where
         let location = LocationAndType::Storage(address, index);
         let mut slot_version = ReadVersion::Storage;
         let mut slot_write = None;
+        #[cfg(feature = "verif-hooks")]
+        crate::verif::rt::pt2("mv_read", self.version.txid, crate::verif::loc_hash(&location));
         if let Some(writes) = self.mv_memory.get(&location) &&
             let Some((&txid, entry)) = writes.range(..self.version.txid).next_back() &&
             let MemoryValue::Storage(value) = entry.data
